@@ -232,9 +232,12 @@ func (w *World) execTx(f []string) (res Result) {
 	var sds []sd
 	for _, k := range keys {
 		addr := sdk.AccAddress(k.PubKey().Address().Bytes())
-		acc := w.A.AccountKeeper.GetAccount(c, addr)
+		// the signer signs with the account number and sequence it knows: what the chain said when it first asked, kept up to date by
+		// its own transactions. Nobody else's transaction changes them.
 		var seq, num uint64
-		if acc != nil {
+		if known, ok := w.signerData[addr.String()]; ok {
+			seq, num = known[0], known[1]
+		} else if acc := w.A.AccountKeeper.GetAccount(c, addr); acc != nil {
 			seq, num = acc.GetSequence(), acc.GetAccountNumber()
 		}
 		sds = append(sds, sd{seq, num})
@@ -256,6 +259,16 @@ func (w *World) execTx(f []string) (res Result) {
 		return Result{Line: "done"}
 	}
 	r := w.A.DeliverTx(abci.RequestDeliverTx{Tx: bz})
+	if w.signerData == nil {
+		w.signerData = map[string][2]uint64{}
+	}
+	after := w.A.BaseApp.NewContext(false, w.Ctx.BlockHeader())
+	for _, k := range keys {
+		addr := sdk.AccAddress(k.PubKey().Address().Bytes())
+		if acc := w.A.AccountKeeper.GetAccount(after, addr); acc != nil {
+			w.signerData[addr.String()] = [2]uint64{acc.GetSequence(), acc.GetAccountNumber()}
+		}
+	}
 	line := "ok"
 	if r.Code != 0 {
 		line = "err"
